@@ -124,7 +124,7 @@ def gen_table(rng):
     header = rng.random() < 0.7
     hdr_style = rng.choice(['header', 'headerRowCount'])
     ncols = rng.randint(1, 6)
-    nrows = rng.randint(1, 6)
+    nrows = rng.choice([1, 2, 3, 4, 5, 6, 0])          # incl. a header-only file (the declared types still hold)
     kinds = [rng.choice(['boolean', 'integer', 'number', 'string', 'date', 'datetime'])
              for _ in range(ncols)]
     cols, data, texts = [], [], []
